@@ -1,5 +1,5 @@
 (* Proofs/DequeAbaProofs.v — (generalisation of Proofs/DequeConcProofs.v: node reuse allowed)
-   the lock-free deque under the guard aba = false, for ALL thread counts,
+   the repaired lock-free deque, UNGUARDED, for ALL thread counts,
    programs and schedules: every step of every thread preserves [Core] (Michael's chain invariant
    plus the register invariants) and is labelled by what it does to the abstract two-ended list
    ([Trans]); conservation and linearizability follow by induction over the schedule
